@@ -16,14 +16,16 @@ LEVEL_TEXT = ("Lean 4 theorems for every matrix / ragged array with rows of leng
               "_step_subset + remove_empty_intervals, modelled row by row) decode, on the property's domain -- the slice is non-empty "
               "in every selected row, and for a negative step the bounds lie inside the row -- to CPython's slice of every selected "
               "dense row (C17_col_range, C17_col_range_row); outside that domain the code is wrong and two machine-checked "
-              "counterexamples say so. argmax, mean and the matrix variant's any(axis=0) are tied by the correspondence only. Correspondence: all matrices <= 3x4 over 2 letters, ragged arrays with lengths >= 1, the full "
+              "counterexamples say so. argmax (first run holding the row maximum) and the matrix variant's any(axis=0) (union of the True "
+              "intervals of all rows by a sweep over independently sorted starts and ends) are proved as well (C17_argmax, C17_col_any); "
+              "mean is tied by the correspondence only. Correspondence: all matrices <= 3x4 over 2 letters, ragged arrays with lengths >= 1, the full "
               "selector grammar restricted to the property's domain, all listed functions, against numpy on the dense data.")
 LEVEL_NOTE = ("Trusted: Lean kernel (+ standard axioms); the model is written against the list-of-rows meaning of the RaggedArray "
               "operations these classes use (C02-C09 theorems) and tied by correspondence (no pinned test touches this module); float "
-              "sum/mean follow F16a. _col_any, argmax, mean: correspondence-only facets.")
+              "sum/mean follow F16a. mean (float division) is a correspondence-only facet.")
 TECHNIQUE = "Lean 4 proof of per-row decode = dense semantics for constructors, selection, reductions, ufuncs; correspondence"
 DESIGN_REF = "7"
-LEAN_MODULES = ["NpsVerif.Props.C17A", "NpsVerif.Props.C17B", "NpsVerif.Props.C17C", "NpsVerif.Props.C17D"]
+LEAN_MODULES = ["NpsVerif.Props.C17A", "NpsVerif.Props.C17B", "NpsVerif.Props.C17C", "NpsVerif.Props.C17D", "NpsVerif.Props.C17E"]
 KERNELS = ()
 RULE = ("cases = input (matrix r x c <= 3x4 over 2-3 letters exhaustive-sampled / ragged array with row lengths 1..4 / interval list) "
         "x class (RunLength2dArray, RunLengthRaggedArray) x operation (to_array, len/shape/size, row int / slice / list / mask, "
@@ -31,7 +33,7 @@ RULE = ("cases = input (matrix r x c <= 3x4 over 2-3 letters exhaustive-sampled 
         "the rows; 700 extra stepped column-range cases per quick run), row-wise sum any all max mean argmax, column sum / mean / counts / any, ravel, concatenate, np.sum/mean/max, "
         "unary / scalar / column ufunc on either side); distinct = distinct (input, class, operation); non-trivial = >= 2 rows or >= 2 runs")
 EXHAUSTIVE = {"quick": False, "thorough": False}
-CORRESPONDENCE_ONLY = ["argmax / mean", "any(axis=0) of the matrix variant", "np.where on ragged run-length arrays"]
+CORRESPONDENCE_ONLY = ["mean (float division)", "np.where on ragged run-length arrays"]
 ASSUMPTIONS = ["rows have length >= 1 (the property's domain)"]
 
 ROW_OPS = ["to_array", "meta", "row_int", "rows", "element", "sum", "any", "all", "unary", "scalar", "column", "col_sum"]
@@ -307,7 +309,7 @@ def oracle(p):
         return refuse()
 
 
-LEAN_F = {"to_array", "row_int", "rows", "element", "col_int", "sum", "max", "any", "all", "col_sum", "col_counts", "ravel", "concat", "unary", "scalar", "column", "col_range", "argmax"}
+LEAN_F = {"to_array", "row_int", "rows", "element", "col_int", "sum", "max", "any", "all", "col_sum", "col_counts", "ravel", "concat", "unary", "scalar", "column", "col_range", "argmax", "any0"}
 
 
 def lean_request(p):
@@ -332,6 +334,11 @@ def lean_request(p):
     for k in ("i", "j", "sel", "c", "side", "col", "a", "b", "s", "rsel"):
         if k in p:
             req[k] = p[k]
+    if f == "any0":
+        if p["cls"] != "2d":
+            return None
+        req["f"] = "col_any"; req["thr"] = 1
+        return req
     if f in ("any", "all"):
         # the implementation reduces (rl > 1); feed the model the thresholded data
         req["rows"] = [[1 if v > 1 else 0 for v in r] for r in _dense(inp)]
@@ -350,7 +357,7 @@ def decode_lean(p, resp):
             if isinstance(j["rows"], dict) or not j["lockstep"]:
                 return refuse()
             return {"k": "val", "v": j["rows"]}
-        if f in ("any", "all"):
+        if f in ("any", "all", "any0"):
             return {"k": "val", "v": [bool(x) for x in j]}
         return {"k": "val", "v": j}
     return conv(resp["L"]), conv(resp["S"])
